@@ -19,6 +19,8 @@ structure SInv (sh : Shared) : Prop where
   len_ok : ∀ n, sh.len = some n → n = sh.src.length ∧ sh.genPos = sh.src.length
   none_len : sh.genNone = true → sh.len ≠ none
   compl_none : sh.complete = true → sh.genNone = true
+  /-- ASSUMPTION of the positive theorems: the underlying generator never raises anything but StopIteration -/
+  noraise : sh.raises = none ∧ sh.genDead = false
 
 /-- "the consumer has received exactly the first k values and is still running" -/
 def Y (sh : Shared) (it : Iter) (k : Nat) : Prop := it.yielded = sh.src.take k ∧ it.res = none
